@@ -53,6 +53,26 @@ def sources(tier, seed, ctx):
         srcs.append({'k': 'cnf', 'net': [ni, gs], 'outs': outs, 'sel': sel, 'variant': ['plain', 'shuffle', 'relabel'][n % 3], 'vs': n + seed})
         if n % 6 == 0:
             srcs.append({'k': 'csat', 'net': [ni, gs], 'outs': outs, 'variant': 'plain', 'vs': n + seed})
+    # targeted family (TLC-enumerated): several gates of one ASYMMETRIC type over the same operands in different orders
+    fnets, fst = gen.universe(2, 3, ['GT', 'LEQ', 'RNOT', 'OR'], 2, tag='C05-F')
+    ctx['gen_states'] += fst['distinct']
+    ctx['gen_transitions'] += fst['generated']
+    rng.shuffle(fnets)
+    ftake = 1500 if tier == 'quick' else 20000
+    for n, net in enumerate(fnets[:ftake]):
+        ni, gs = net
+        r = random.Random(seed * 59 + n)
+        outs = gen.pick_outputs(r, ni, len(gs), kind=['last', 'many', 'some'][n % 3])
+        srcs.append({'k': 'cnf' if n % 4 else 'csat', 'net': [ni, gs], 'outs': outs, 'sel': None, 'variant': 'plain', 'vs': n + seed, 'family': 'asym'})
+    note.append(f'family U(2,3,GT/LEQ/RNOT/OR,2)={len(fnets)} ({min(ftake, len(fnets))} replayed)')
+    # ... and the pattern itself for every asymmetric type: T(a, b), T(b, a) and a gate over both
+    for t in ['GT', 'LT', 'GEQ', 'LEQ', 'LNOT', 'RNOT', 'LIFF', 'RIFF']:
+        for top in ['OR', 'AND', 'XOR', 'GT']:
+            for ni, (a, b) in ((2, (1, 2)), (3, (1, 3)), (3, (3, 2))):
+                gs = [[t, [a, b]], [t, [b, a]], [top, [ni + 1, ni + 2]]]
+                for outs in ([ni + 3], [ni + 1, ni + 2], [ni + 2, ni + 3, ni + 1]):
+                    srcs.append({'k': 'cnf', 'net': [ni, gs], 'outs': outs, 'sel': None, 'variant': 'plain', 'vs': 0, 'family': 'asym-pair'})
+                srcs.append({'k': 'csat', 'net': [ni, gs], 'outs': [ni + 3], 'variant': 'plain', 'vs': 0, 'family': 'asym-pair'})
     nrand = 500 if tier == 'quick' else 8000
     for j in range(nrand):
         ni = rng.randint(1, 4)
